@@ -596,3 +596,28 @@ add('C16.second_pass_keeps_empty', 'C16', (MMF, "      if buffer_data is None or
     (), 'second pass does not skip empty constants (appends nothing, pads nothing: no change)', kind='twin')
 add('C16.first_pass_keeps_empty', 'C16', (MMF, "      if buffer_data is None or len(buffer_data) == 0:\n        continue\n      buffer.offset = len(dummy_bytearray)", "      if buffer_data is None:\n        continue\n      buffer.offset = len(dummy_bytearray)"),
     'C16.R6', 'a zero-length constant gets an offset in the final table only: the table grows after the offsets were measured')
+
+# ---------------------------------------------- performer bookkeeping (label-model simulation)
+add('C01.shift_after_start', 'C01', (TP, "    np_op_id_map[original_op_id:] += num_ops_added", "    np_op_id_map[original_op_id + 1:] += num_ops_added"),
+    ('C01.R14', 'C01.R8'), 'the operator at the insert position is not shifted')
+add('C01.first_after_strict', 'C01', (TP, "      if current_position >= op_position:\n        return original_op_id", "      if current_position > op_position:\n        return original_op_id"),
+    ('C01.R14', 'C01.R8'), 'the operator sitting at the insert position is not found')
+add('C01.added_index_off', 'C01', (TP, "        trans_info.op_id + trans_info.num_ops_added - 1\n", "        trans_info.op_id + trans_info.num_ops_added\n"),
+    'C01.R14', 'position of the added op recorded one too far')
+add('C01.chain_disjoint', 'C01', (TP, "        if consumer_index in prev_transformation.consumers:\n", "        if consumer_index >= 0 or consumer_index in prev_transformation.consumers:\n"),
+    'C01.R14', 'an instruction for other consumers is chained behind the op added for the first group')
+add('C01.chain_producer_off', 'C01', (TP, "              + len(self._added_op_id_map[subgraph_id])\n              - 1\n", "              + len(self._added_op_id_map[subgraph_id])\n"),
+    'C01.R14', 'chained producer points one past the added op')
+add('C01.shift_from_position', 'C01', (TP, "        self._first_original_op_at_or_after(\n            transformation_inst.subgraph_id, trans_info.op_id\n        ),", "        trans_info.op_id,"),
+    ('C01.R14', 'C01.R8'), 'the op-id map is shifted from the insert POSITION used as an ORIGINAL id (wrong after an earlier insertion)')
+add('C01.maps_not_reset', 'C01', (TP, "    self._original_op_id_map = []\n    self._added_op_id_map = []\n    self._create_op_id_map(tflite_model)", "    self._create_op_id_map(tflite_model)"),
+    ('C01.R14', 'C01.R8'), 'a second transform_graph call appends to the maps of the first')
+add('C01.added_map_other_subgraph', 'C01', (TP, "    self._added_op_id_map[subgraph_id].append(\n", "    self._added_op_id_map[0].append(\n"),
+    ('C01.R14', 'C19.R1'), 'added ops of any subgraph recorded under subgraph 0')
+add('C19.added_map_other_subgraph', 'C19', (TP, "    self._added_op_id_map[subgraph_id].append(\n", "    self._added_op_id_map[0].append(\n"),
+    ('C19.R10', 'C19.R1'), 'added ops of any subgraph recorded under subgraph 0')
+add('C19.shift_other_subgraph', 'C19', (TP, "    self._original_op_id_map[subgraph_id] = np_op_id_map.tolist()", "    self._original_op_id_map[0] = np_op_id_map.tolist()"),
+    ('C19.R10', 'C19.R1', 'C19.R2'), 'shifted map written back to subgraph 0')
+add('C01.twin_first_helper_inline', 'C01', (TP, "    op_id_map = self._original_op_id_map[subgraph_id]\n    for original_op_id, current_position in enumerate(op_id_map):\n      if current_position >= op_position:\n        return original_op_id\n    return len(op_id_map)",
+    "    positions = self._original_op_id_map[subgraph_id]\n    candidates = [i for i, pos in enumerate(positions) if pos >= op_position]\n    return candidates[0] if candidates else len(positions)"),
+    (), 'first-original-op helper written as a comprehension', kind='twin')
